@@ -21,6 +21,8 @@ def run(repo, report, tier):
     format_rules(repo, report, "C19")
     report.guard("C19.R2", "force_fasta", r2_fasta, repo, report)
     report.guard("C19.R4", "interleaving", r4_interleaved, repo, report)
+    report.guard("C19.R4", "log stream", r4_log_stream, repo, report)
+    report.guard("C19.R4", "writer layout", r4_writer_layout, repo, report)
     report.trust("dnaio.open(mode='w') without fileformat takes the format from the .name of a file object only if that attribute is a str, otherwise from 'qualities' (dnaio 1.2.4 singleend._open_single/_open_file_or_path)")
     report.trust("dnaio.open(mode='r') with a fileformat does not look at file names")
     report.notes.append("Not decided: codec round trips, multi-member gzip, FASTA/FASTQ record equivalence (library and runtime behaviour).")
@@ -128,23 +130,48 @@ def _r1_output(repo, report, rule):
         return
     from .. import constfold
 
-    consts = [constfold.fold(n) for n in ast.walk(fn) if isinstance(n, (ast.Tuple, ast.List)) and all(isinstance(e, ast.Constant) and isinstance(e.value, str) for e in n.elts) and n.elts]
-    comp = [c for c in consts if ".gz" in c]
-    fa = [c for c in consts if ".fasta" in c]
-    fq = [c for c in consts if ".fastq" in c]
-    # the table must be dnaio's own (frozen fact, dnaio 1.2.4 singleend._detect_format_from_name): the serial writer lets
-    # dnaio decide by name when no explicit format is given, the proxied writer can only be told explicitly
+    # The function is closed (strings in, string out): it is folded on a table of names and compared with dnaio's own
+    # rule (frozen fact, dnaio 1.2.4 singleend._detect_format_from_name: lower-case the name, strip ONE compression
+    # suffix, take the extension).  The serial writer lets dnaio decide by name when no explicit format is given, the
+    # proxied writer can only be told explicitly - so the two must be the same function of the name.
     DNAIO_FASTA = {".fasta", ".fa", ".fna", ".csfasta", ".csfa"}
     DNAIO_FASTQ = {".fastq", ".fq"}
-    ok = bool(comp) and set(comp[0]) >= {".gz", ".bz2", ".xz", ".zst"} and bool(fa) and set(fa[0]) == DNAIO_FASTA and bool(fq) and set(fq[0]) == DNAIO_FASTQ
-    # order: compression suffix removed before the extension is taken
-    loops = [n for n in ast.walk(fn) if isinstance(n, ast.For)]
-    split = [n for n in ast.walk(fn) if isinstance(n, ast.Call) and chain(n.func) == "os.path.splitext"]
-    ok = ok and loops and split and loops[0].lineno < split[0].lineno
-    rets = {src(n.value) for n in ast.walk(fn) if isinstance(n, ast.Return)}
-    ok = ok and rets == {"'fasta'", "'fastq'", "None"}
-    report.ob(rule, "files.detect_format_from_name", ok, facts={"compression_suffixes": comp[:1], "fasta": fa[:1], "fastq": fq[:1], "returns": sorted(rets)},
-              expected="strip .gz/.bz2/.xz/.zst, then exactly dnaio's tables: .fasta/.fa/.fna/.csfasta/.csfa -> 'fasta', .fastq/.fq -> 'fastq', else None - identically for every compression suffix", loc=repo.loc(fn))
+
+    def dnaio_rule(name):
+        name = name.lower()
+        for ext in (".gz", ".xz", ".bz2", ".zst"):
+            if name.endswith(ext):
+                name = name[: -len(ext)]
+                break
+        import posixpath
+        name, ext = posixpath.splitext(name)
+        if ext in DNAIO_FASTA:
+            return "fasta"
+        if ext in DNAIO_FASTQ or (ext == ".txt" and name.endswith("_sequence")):
+            return "fastq"
+        return None
+
+    pname = params(fn)[0]
+    stems = ["out", "dir.fastq/out", "s_1_sequence", "x.fasta.tmp"]
+    exts = sorted(DNAIO_FASTA | DNAIO_FASTQ) + [".txt", ".dat", ""]
+    bad, ncase = [], 0
+    try:
+        for stem in stems:
+            for ext in exts:
+                for comp_ in ("", ".gz", ".bz2", ".xz", ".zst"):
+                    for case in (str.lower, str.upper, str.title):
+                        name = case(stem + ext + comp_)
+                        got = constfold.fold_function(fn, {pname: name})
+                        ncase += 1
+                        if got != dnaio_rule(name):
+                            bad.append({"name": name, "detected": got, "dnaio": dnaio_rule(name)})
+    except constfold.NotConstant as e:
+        report.unrecognised(rule, "files.detect_format_from_name", f"not a closed function of the name ({e})", repo.loc(fn))
+        bad = None
+    if bad is not None:
+        report.ob(rule, "files.detect_format_from_name", not bad, facts={"names_evaluated": ncase, "disagreements": bad[:3]}, cases=ncase,
+                  expected="the same function of the file name as dnaio's: case-insensitive, one compression suffix (.gz/.bz2/.xz/.zst) stripped, .fasta/.fa/.fna/.csfasta/.csfa -> 'fasta', .fastq/.fq/_sequence.txt -> 'fastq', else None", loc=repo.loc(fn),
+                  why=(f"for the name {bad[0]['name']!r} the detector says {bad[0]['detected']!r} where dnaio (serial, uncompressed writer) says {bad[0]['dnaio']!r}: the output format then depends on compression and on --cores" if bad else ""))
     # ProxyRecordWriter forwards the keyword arguments unchanged to dnaio.open and restores them after pickling (C06.R5)
     c, pi = repo.need_method("ProxyRecordWriter", "__init__")
     op = [x for x in calls(pi) if any(src(a) == "dnaio.open" for a in x.args) or chain(x.func) == "dnaio.open"]
@@ -310,3 +337,71 @@ def r4_interleaved(repo, report):
     guards = [src(n.test) for n in ast.walk(orw) if isinstance(n, ast.If) and any(isinstance(x, ast.Raise) for x in n.body)]
     ok = any("interleaved and len(paths) != 1" in g for g in guards)
     report.ob("C19.R4", "interleaved writing to two files is rejected", ok, facts={"guards": guards}, expected="interleaved and len(paths) != 1 raises", loc=repo.loc(orw))
+
+
+_STDOUT_CAPABLE = ("output", "paired_output", "untrimmed_output", "untrimmed_paired_output", "too_short_output", "too_short_paired_output",
+                   "too_long_output", "too_long_paired_output", "rest_file", "info_file", "wildcard_file")
+
+
+def r4_log_stream(repo, report):
+    """Records sent to standard output ('-' for any output option, or no -o at all) must not be mixed with the log and
+    the report: is_any_output_stdout(args) has to look at EVERY option that can name '-', and main() must hand its
+    result to setup_logging as log_to_stderr."""
+    fn = repo.func("cli", "is_any_output_stdout")
+    if fn is None:
+        raise Unrecognised("cli.is_any_output_stdout not found")
+    a = params(fn)[0]
+    looked = set()
+    for n in ast.walk(fn):
+        if isinstance(n, ast.Compare) and len(n.ops) == 1:
+            l, r = n.left, n.comparators[0]
+            if isinstance(n.ops[0], ast.Eq):
+                for x, y in ((l, r), (r, l)):
+                    if isinstance(y, ast.Constant) and y.value == "-" and (chain(x) or "").startswith(a + "."):
+                        looked.add(chain(x)[len(a) + 1:])
+            if isinstance(n.ops[0], ast.In) and isinstance(l, ast.Constant) and l.value == "-" and isinstance(r, (ast.Tuple, ast.List, ast.Set)):
+                for e in r.elts:
+                    if (chain(e) or "").startswith(a + "."):
+                        looked.add(chain(e)[len(a) + 1:])
+    none_test = any(isinstance(n, ast.Compare) and isinstance(n.ops[0], ast.Is) and chain(n.left) == f"{a}.output" and isinstance(n.comparators[0], ast.Constant) and n.comparators[0].value is None for n in ast.walk(fn))
+    from ..argtable import option_table
+    dests = {o.dest for o in option_table(repo)}
+    unknown = [d for d in _STDOUT_CAPABLE if dests and d not in dests]
+    if unknown:
+        raise Unrecognised(f"output options {unknown} are no longer argparse destinations", repo.loc(fn))
+    missing = [d for d in _STDOUT_CAPABLE if d not in looked]
+    report.ob("C19.R4", "is_any_output_stdout looks at every option that can name '-'", not missing and none_test, facts={"looked_at": sorted(looked), "missing": missing, "no -o means stdout": none_test}, loc=repo.loc(fn),
+              expected="args.output is None, or any of the output options equals '-'",
+              why=(f"--{missing[0].replace('_', '-')} - is not recognised as standard output: the log and the report are then written to standard output too, in between the records" if missing else ""))
+    m = cli_main(repo)
+    sl = [x for x in calls(m) if chain(x.func) == "setup_logging"]
+    ok = len(sl) == 1 and any(k.arg == "log_to_stderr" and isinstance(k.value, ast.Call) and chain(k.value.func) == "is_any_output_stdout" for k in sl[0].keywords)
+    report.ob("C19.R4", "main sends the log to standard error whenever records go to standard output", ok, facts={"call": src(sl[0])[:160] if sl else None}, expected="setup_logging(..., log_to_stderr=is_any_output_stdout(args), ...)", loc=repo.loc(m))
+
+
+def r4_writer_layout(repo, report):
+    """Whether a record writer interleaves is its caller's decision (one -o file with --interleaved).  The writers
+    opened without saying so - demultiplexing files, redirect files given as two paths - must not inherit the INPUT
+    layout: the parameter defaults to False and is what reaches the writer."""
+    n = 0
+    for mname in ("open_record_writer", "open_stdout_record_writer"):
+        c, fn = repo.method("OutputFiles", mname)
+        if fn is None:
+            continue
+        a = fn.args
+        names = [x.arg for x in a.args] + [x.arg for x in a.kwonlyargs]
+        defaults = dict(zip([x.arg for x in a.args][len(a.args) - len(a.defaults):], a.defaults))
+        defaults.update({x.arg: d for x, d in zip(a.kwonlyargs, a.kw_defaults) if d is not None})
+        il = [p_ for p_ in names if "interleaved" in p_]
+        if len(il) != 1:
+            report.unrecognised("C19.R4", f"OutputFiles.{mname}", "no 'interleaved' parameter", repo.loc(fn))
+            continue
+        d = defaults.get(il[0])
+        rebound = [x for x in ast.walk(fn) if isinstance(x, ast.Name) and x.id == il[0] and isinstance(x.ctx, ast.Store)]
+        other = sorted({chain(x) for x in ast.walk(fn) if isinstance(x, ast.Attribute) and "interleaved" in x.attr and (chain(x) or "").startswith("self.")})
+        ok = isinstance(d, ast.Constant) and d.value is False and not rebound and not other
+        n += 1
+        report.ob("C19.R4", f"OutputFiles.{mname}: interleaving is the caller's explicit choice", ok, facts={"default": src(d) if d is not None else None, "parameter_rebound": bool(rebound), "instance_state_consulted": other}, loc=repo.loc(fn),
+                  expected=f"{il[0]}: bool = False, passed on unchanged",
+                  why="" if ok else f"the writer's layout falls back to {other[0] if other else src(d) if d is not None else 'another value'}: with --interleaved input, files opened as a pair (e.g. {{name}} demultiplexing with -o/-p) are refused or written interleaved, while the same reads given as two files work")
+    report.floor("C19.R4", "record writer factories", n, 2)
